@@ -154,19 +154,20 @@ type Read struct {
 	Res string `json:"res"` // V<hex> | N (not exist) | gc | pdtimeout | err:<text>
 }
 type Result struct {
-	Case     Case        `json:"case"`
-	SetupErr string      `json:"setup_err,omitempty"`
-	Pre      []Rec       `json:"pre,omitempty"`
-	Post     []Rec       `json:"post,omitempty"`
-	Err      string      `json:"err"` // error of the operation under test ("" = success)
-	Events   []Event     `json:"events,omitempty"`
-	Subs     [][2]string `json:"subs,omitempty"` // sub-ranges received by the handler, call order
-	Locks    []string    `json:"locks_after,omitempty"`
-	Reads    []Read      `json:"reads,omitempty"`
-	Vis      []Read      `json:"vis,omitempty"`
-	Layout0  []string    `json:"layout0"`
-	NewSP    uint64      `json:"new_sp,omitempty"`
-	Done     int         `json:"completed_regions,omitempty"`
+	Case        Case        `json:"case"`
+	SetupErr    string      `json:"setup_err,omitempty"`
+	Pre         []Rec       `json:"pre,omitempty"`
+	Post        []Rec       `json:"post,omitempty"`
+	Err         string      `json:"err"` // error of the operation under test ("" = success)
+	Events      []Event     `json:"events,omitempty"`
+	Subs        [][2]string `json:"subs,omitempty"` // sub-ranges received by the handler, call order
+	Locks       []string    `json:"locks_after,omitempty"`
+	Reads       []Read      `json:"reads,omitempty"`
+	ReadsBefore []Read      `json:"reads_before,omitempty"`
+	Vis         []Read      `json:"vis,omitempty"`
+	Layout0     []string    `json:"layout0"`
+	NewSP       uint64      `json:"new_sp,omitempty"`
+	Done        int         `json:"completed_regions,omitempty"`
 }
 
 func hx(b []byte) string {
@@ -702,6 +703,23 @@ func runCase(c *Case) *Result {
 	case "gc":
 		res.Pre = w.dump(c.Keys)
 		probe := tikv.StoreProbe{KVStore: w.store}
+		// snapshot reads BEFORE the pass, lock-free keys only (a reader would resolve the locks it meets)
+		for _, ts := range c.ReadTS {
+			snap := w.store.GetSnapshot(ts)
+			for _, r := range res.Pre {
+				if r.Lock != nil {
+					continue
+				}
+				e, err := snap.Get(ctx, unhx(r.Key))
+				rd := Read{Key: r.Key, TS: ts}
+				if err != nil {
+					rd.Res = errClass(err)
+				} else {
+					rd.Res = "V" + hex.EncodeToString(e.Value)
+				}
+				res.ReadsBefore = append(res.ReadsBefore, rd)
+			}
+		}
 		var subsMu sync.Mutex
 		switch c.Mode {
 		case "phase":
